@@ -109,7 +109,7 @@ where
     New::Output: PartialEq<Old::Output> + Hash + Eq + Ord,
 /*@*/     requires box_pre(old, old_range, new, new_range),
 /*@*/         alg == Algorithm::Lcs ==> ((old_range.end - old_range.start) <= u32::MAX || (new_range.end - new_range.start) <= u32::MAX),   // lcs table cells are u32
-/*@*/     /*S*/     deadline is None,   // exactness is claimed without a deadline only (the deadline fallback emits an Insert that carries the start of the deleted block)
+/*@*/     /*S*/     deadline is None || alg == Algorithm::Lcs,   // exactness is claimed without a deadline, and for LCS with any deadline (the Myers give-up path emits an Insert that carries the start of the deleted block)
 /*@*/     ensures
 /*@*/     /*L*/     cap_post(old, old_range, new, new_range, res@, false),   // [C02,C09,C10]
 /*@*/     /*S*/     cap_post(old, old_range, new, new_range, res@, true),    // [C11]
@@ -147,7 +147,7 @@ where
     diff_deadline(alg, &mut d, old, old_range, new, new_range, deadline).unwrap();
     /*@*/ proof {
     /*@*/     reveal(step_rel);
-    /*@*/     let lvl = alg_lvl(deadline);
+    /*@*/     let lvl = lvl_of(alg, deadline);
     /*@*/     let s = choose|q: Seq<Ev>| #[trigger] seg(old, new, lvl, q, os, ns, oe, ne) && d.trace() == d0.trace() + q + fin::<Compact<Old, New, Replace<Capture>>>()
     /*@*/         && (d0.relies() ==> d.rely_st() == run_rel(d0.rely_rel(), d0.rely_st(), q + fin::<Compact<Old, New, Replace<Capture>>>()))
     /*@*/         && ((deadline is None && alg != Algorithm::Patience) ==> seg_eqs(rel, lvl, q, os, ns, oe, ne) == lcs_len(old, os, oe, new, ns, ne));
@@ -239,7 +239,7 @@ where
     T: Eq + Hash + Ord,
 /*@*/     requires box_pre(old, (0..old.len()), new, (0..new.len())),
 /*@*/         alg == Algorithm::Lcs ==> (((0..old.len()).end - (0..old.len()).start) <= u32::MAX || ((0..new.len()).end - (0..new.len()).start) <= u32::MAX),   // lcs table cells are u32
-/*@*/     /*S*/     deadline is None,   // exactness is claimed without a deadline only (the deadline fallback emits an Insert that carries the start of the deleted block)
+/*@*/     /*S*/     deadline is None || alg == Algorithm::Lcs,   // exactness is claimed without a deadline, and for LCS with any deadline (the Myers give-up path emits an Insert that carries the start of the deleted block)
 /*@*/     ensures
 /*@*/     /*L*/     cap_post(old, (0..old.len()), new, (0..new.len()), res@, false),   // [C02,C09,C10]
 /*@*/     /*S*/     cap_post(old, (0..old.len()), new, (0..new.len()), res@, true),    // [C11]
